@@ -1,6 +1,5 @@
-(* C11 -- Generation terminates on recursive schemas and grammars. (core theorem with an explicit
-   fuel bound is in progress; this file holds the termination facts proved so far) *)
-From Fences Require Import GraphSpec GraphLinks GraphExec GraphTerm.
+(* C11 -- Generation terminates on recursive schemas and grammars: the core (core/node.py). *)
+From Fences Require Import GraphSpec GraphLinks GraphExec GraphAnalysis GraphTheorems GraphCheck GraphTerm GraphWalk.
 
 (* the work-list loop of generate_paths ends after at most |leaves| rounds, whatever the graph *)
 Theorem C11_loop_rounds : forall V g fuel lv lr k tv, length tv <= k ->
@@ -18,3 +17,73 @@ Proof.
   destruct (gp_loop_spec V g root W fuel lv lr k tv es st H G) as (_ & _ & _ & L). exact L.
 Qed.
 Print Assumptions C11_entries_bounded.
+
+(* Enumeration terminates on every well-formed graph with cycles in which every decision can reach a completion
+   made of valid leaves only: there is a recursion budget F from which on generate_paths() ends normally
+   (OutOfFuel is the model's RecursionError; no Python or library exception either), with the same entries for
+   every budget >= F.  Needs the repaired _analyze_forwards (fix_af); on the pinned code the statement is false,
+   see C04_no_error_refuted_pinned. *)
+Theorem C11_core_productive : forall V g root lr0 lv0,
+  wf g root -> (forall n, is_dec g n = true -> VC g n) ->
+  fix_af V = true -> (fix_reset V = true \/ (blank g lr0 /\ blank g lv0)) ->
+  exists F a es, forall fuel, F <= fuel ->
+    generate_paths V fuel g root lr0 lv0 = Ok (a, (es, Ok tt)).
+Proof. exact generate_paths_terminates. Qed.
+Print Assumptions C11_core_productive.
+
+(* ... and on every acyclic well-formed graph, productive or not *)
+Theorem C11_core_acyclic : forall V g root lr0 lv0,
+  wf g root -> acyclic g ->
+  fix_af V = true -> (fix_reset V = true \/ (blank g lr0 /\ blank g lv0)) ->
+  exists F a es, forall fuel, F <= fuel ->
+    generate_paths V fuel g root lr0 lv0 = Ok (a, (es, Ok tt)).
+Proof. exact generate_paths_terminates_acyclic. Qed.
+Print Assumptions C11_core_acyclic.
+
+(* the analysis phase has an explicit budget: nodes + transition records, whatever the graph *)
+Theorem C11_analysis_budget : forall V g root,
+  consistent g -> nonempty_decs g -> fix_af V = true -> root < length g ->
+  forall fuel lr0 lv0, S (length g + length (recs_in g) + length (recs_out g)) <= fuel ->
+    exists a, analyse V fuel g root lr0 lv0 = Ok a.
+Proof. exact analyse_terminates. Qed.
+Print Assumptions C11_analysis_budget.
+
+(* every path is finite and executing it returns: each entry runs to the end within the same budget *)
+Theorem C11_paths_execute : forall V g root lr0 lv0,
+  wf g root -> ((forall n, is_dec g n = true -> VC g n) \/ acyclic g) ->
+  fix_af V = true -> (fix_reset V = true \/ (blank g lr0 /\ blank g lv0)) ->
+  exists F a es, forall fuel, F <= fuel ->
+    generate_paths V fuel g root lr0 lv0 = Ok (a, (es, Ok tt)) /\
+    forall e, In e es -> exists tr, exec fuel g root (epath e) = Ok (tr, []) /\ In (etarget e) tr.
+Proof.
+  intros V g root lr0 lv0 W HP FA HB.
+  assert (T : exists F a es, forall fuel, F <= fuel -> generate_paths V fuel g root lr0 lv0 = Ok (a, (es, Ok tt))).
+  { destruct HP as [HP|HP]; [apply generate_paths_terminates|apply generate_paths_terminates_acyclic]; auto. }
+  destruct T as (F & a & es & HT). exists F, a, es. intros fuel Lf. split; [auto|].
+  intros e He.
+  assert (HB' : fix_reset V = true \/ forall s i, s < length g -> lv0 s i = None) by (destruct HB as [HB|[_ HB]]; auto).
+  destruct (paths_exact V g root W fuel lr0 lv0 a es (Ok tt) HB' (HT fuel Lf) e He) as (tr & X & I & _).
+  eauto.
+Qed.
+Print Assumptions C11_paths_execute.
+
+(* the hypotheses are decided by the boolean checkers the harness runs on every generated graph *)
+Theorem C11_checkers : forall g root,
+  (wfb g root = true -> wf g root) /\
+  (productiveb g = true -> forall n, is_dec g n = true -> VC g n) /\
+  (acyclicb g = true -> acyclic g).
+Proof. intros g root. split; [apply wfb_wf|split; [apply productiveb_sound|apply acyclicb_sound]]. Qed.
+Print Assumptions C11_checkers.
+
+(* non-vacuity: a productive cyclic graph (the witness of C04_no_error_refuted_pinned) *)
+Definition c11_witness : list op :=
+  [NewNode (KDec false false) None; NewNode (KDec false false) None; NewNode (KDec false false) None;
+   NewNode (KDec false false) None; NewNode (KLeaf true) None;
+   AddT 0 1; AddT 3 2; AddT 1 2; AddT 2 3; AddT 2 4].
+Example C11_nonvacuous :
+  wf (build c11_witness) 0 /\ (forall n, is_dec (build c11_witness) n = true -> VC (build c11_witness) n) /\
+  acyclicb (build c11_witness) = false.
+Proof.
+  split; [apply wfb_wf; vm_compute; reflexivity|]. split; [apply productiveb_sound; vm_compute; reflexivity|].
+  vm_compute. reflexivity.
+Qed.
